@@ -338,6 +338,9 @@ Quiesce(st) ==
   ELSE LET s1 == ReadyEff(st) IN
        IF ~s1.alive THEN s1
        ELSE IF s1.closed THEN Stop(s1, "stop_peer", -1)
+       \* (while a released call runs nothing is read once its guard is awaited by a readiness poll; the poll that
+       \*  released it may still read one packet.  Recorded runs disagree in a few corner cases - 6 of 4000 with the
+       \*  limiter, 23 of 3200 at teardown -, which needs the waiters of ntex-service's pipeline to be modelled.)
        ELSE IF s1.nc = 2 THEN s1
        ELSE IF ~LimReady(s1) THEN [s1 EXCEPT !.rdy = TRUE]
        ELSE IF s1.rbuf # << >> THEN Quiesce(Read([s1 EXCEPT !.rbuf = Tail(@)], Head(s1.rbuf)))
